@@ -295,9 +295,11 @@ def _assigned_in(stmts):
 
 
 class Extractor:
-    def __init__(self, func, classifier, bind=None):
+    def __init__(self, func, classifier, bind=None, callee=None):
         self.func = func
         self.c = classifier
+        self.callee = callee     # evaluated call -> (FunctionDef, receiver value | None) | None
+        self.saved = {}          # key of a caller's environment -> that environment
         self.lts = LTS()
         self.memo = {}
         self.blocks = {}       # id -> stmt list
@@ -407,6 +409,10 @@ class Extractor:
         below = stack[:-1]
         if kind in ('seq', 'handler', 'else'):
             return (below, st)
+        if kind == 'call':
+            st.env['<ret>'] = ast.Constant(value=None)
+            st.env['<ret-none>'] = ast.Constant(value=True)
+            return self.leave_call(below, aux, st)
         if kind == 'while':
             return self.loop_head(below, aux, st)        # aux = id of loop node
         if kind == 'for':
@@ -467,6 +473,16 @@ class Extractor:
                     fb = self.blocks[stack[-1][1]]
                     return (self.push(stack[:-1], 'finally', fb, ('status',) + tuple(status)), st)
                 continue
+            if kind == 'call':
+                if status[0] == 'return':
+                    return self.leave_call(below, aux, st)
+                if status[0] != 'raise':
+                    raise Undecided('%s leaves a function' % status[0])
+                keep = {k: v for k, v in st.env.items() if k in ('<handling>',)}
+                st.env = dict(self.saved[aux[2]])
+                st.env.update(keep)
+                stack = below
+                continue
             if kind in ('while', 'for'):
                 if status[0] == 'break':
                     if kind == 'for':
@@ -480,7 +496,11 @@ class Extractor:
                 continue
             stack = below
         if status[0] == 'return':
-            st.labels.append('return[%s]' % status[1])
+            v = st.env.get('<ret>')
+            none = st.env.get('<ret-none>')
+            if isinstance(none, ast.Constant) and none.value:
+                v = None
+            st.labels.append('return[%s]' % self.c.ret(v))
             return self.sink
         if status[0] == 'raise':
             st.labels.append('raise[%s]' % status[1])
@@ -502,10 +522,17 @@ class Extractor:
     x_ClassDef = x_FunctionDef
 
     def x_Expr(self, s, rest, st):
+        c = self.enter_call(s.value, rest, st, ('drop',))
+        if c is not None:
+            return c
         self.ev(s.value, st)
         return (rest, st)
 
     def x_Assign(self, s, rest, st):
+        if len(s.targets) == 1:
+            c = self.enter_call(s.value, rest, st, ('assign', s.targets[0]))
+            if c is not None:
+                return c
         v = self.ev(s.value, st)
         for t in s.targets:
             self.assign(t, v, st)
@@ -554,8 +581,118 @@ class Extractor:
             raise Undecided('assignment target %s' % type(t).__name__)
 
     def x_Return(self, s, rest, st):
+        c = self.enter_call(s.value, rest, st, ('return',))
+        if c is not None:
+            return c
         v = self.ev(s.value, st) if s.value is not None else None
-        return self.unwind(rest, ('return', self.c.ret(v)), st)
+        return self.do_return(rest, v, st)
+
+    def do_return(self, rest, v, st):
+        st.env['<ret>'] = v if v is not None else ast.Constant(value=None)
+        st.env['<ret-none>'] = ast.Constant(value=v is None)
+        return self.unwind(rest, ('return',), st)
+
+    # ---- calls of the repository's own helpers (a frame per call; the caller's environment is
+    # kept aside and restored when the callee returns or an exception passes through)
+    MAX_CALL_DEPTH = 4
+
+    def enter_call(self, value, rest, st, cont):
+        """value: a call expression in statement position (return f(..) / x = f(..) / f(..)).
+        cont: ('return',) | ('assign', target ast) | ('drop',)"""
+        if self.callee is None or not isinstance(value, ast.Call):
+            return None
+        if sum(1 for f in rest if f[0] == 'call') >= self.MAX_CALL_DEPTH:
+            return None
+        probe = st.clone()
+        probe.labels = []
+        opos = self.opos
+        func = self.ev(value.func, probe)
+        got = None if probe.labels else self.callee(ast.Call(func=func, args=[], keywords=[]))
+        if got is None:
+            self.opos = opos
+            return None
+        fn, recv = got
+        # the classifier has the first word: an event stays an event
+        args = [self.ev(a, st) for a in value.args]
+        kws = [ast.keyword(arg=k.arg, value=self.ev(k.value, st)) for k in value.keywords]
+        new = ast.Call(func=func, args=args, keywords=kws)
+        ast.copy_location(new, value)
+        if self.c.call(new) is not None:
+            raise Undecided('call of %s is both an event and a helper' % canon(func))
+        env = self.bind_args(fn, recv, args, kws, st)
+        if env is None:
+            raise Undecided('cannot bind the arguments of the call %s' % canon(new)[:80])
+        key = _key_env(st.env, {})
+        self.saved[key] = dict(st.env)
+        tag = None
+        if cont[0] == 'assign':
+            tag = ('assign', self.node_id(cont[1]))
+        else:
+            tag = cont
+        for k in ('<handling>',):
+            if k in st.env:
+                env[k] = st.env[k]
+        st.env = env
+        return (self.push(rest, 'call', fn.body, ('call', tag, key)), st)
+
+    def bind_args(self, fn, recv, args, kws, st):
+        a = fn.args
+        if any(isinstance(x, ast.Starred) for x in args):
+            return None
+        params = [p.arg for p in a.posonlyargs + a.args]
+        pos = ([recv] if recv is not None else []) + list(args)
+        env = {}
+        if len(pos) > len(params):
+            if a.vararg is None:
+                return None
+            env[a.vararg.arg] = ast.Tuple(elts=pos[len(params):], ctx=ast.Load())
+            pos = pos[:len(params)]
+        elif a.vararg is not None:
+            env[a.vararg.arg] = ast.Tuple(elts=[], ctx=ast.Load())
+        for n, v in zip(params, pos):
+            env[n] = v
+        named = params[len(a.posonlyargs):] + [p.arg for p in a.kwonlyargs]
+        extra_k, extra_v = [], []
+        for k in kws:
+            if k.arg is not None and k.arg in named:
+                if k.arg in env:
+                    return None
+                env[k.arg] = k.value
+            else:
+                extra_k.append(None if k.arg is None else ast.Constant(value=k.arg))
+                extra_v.append(k.value)
+        if a.kwarg is not None:
+            if len(extra_k) == 1 and extra_k[0] is None:
+                env[a.kwarg.arg] = extra_v[0]
+            else:
+                env[a.kwarg.arg] = ast.Dict(keys=extra_k, values=extra_v)
+        elif any(k is not None for k in extra_k):
+            return None
+        elif extra_k:
+            # f(**k) to a callee without **: the names it receives are not known here
+            return None
+        defaults = dict(zip(reversed(params), reversed(a.defaults)))
+        for p, d in zip(a.kwonlyargs, a.kw_defaults):
+            if d is not None:
+                defaults[p.arg] = d
+        for n in params + [p.arg for p in a.kwonlyargs]:
+            if n not in env:
+                if n not in defaults:
+                    return None
+                env[n] = self.ev(defaults[n], _State())
+        return env
+
+    def leave_call(self, below, aux, st):
+        """the callee returned (st.env['<ret>'] holds the value): back in the caller"""
+        _, tag, key = aux
+        v = st.env.get('<ret>', ast.Constant(value=None))
+        none = st.env.get('<ret-none>')
+        st.env = dict(self.saved[key])
+        if tag[0] == 'return':
+            return self.do_return(below, None if (isinstance(none, ast.Constant) and none.value) else v, st)
+        if tag[0] == 'assign':
+            self.assign(self.nodes[tag[1]], v, st)
+        return (below, st)
 
     def x_Raise(self, s, rest, st):
         if s.exc is None:
@@ -595,11 +732,24 @@ class Extractor:
     # ---- loops
     def widen(self, node, st):
         tag = 'L%d' % node.lineno
+        names = []
         for n in sorted(_assigned_in(node.body) | (_assigned_in([node]) if isinstance(node, ast.For) else set())):
             v = st.env.get(n)
             if v is not None and _is_control_value(v):
                 continue
-            st.env[n] = ast.Name(id='%s@%s' % (n, tag), ctx=ast.Load())
+            names.append(n)
+        # a loop-carried variable that enters the loop holding a parameter (a local copy of it, an
+        # expansion's renamed local) is named after that parameter, when that is unambiguous
+        roots = {}
+        for n in names:
+            v = st.env.get(n)
+            r = v.id.split('@')[0] if isinstance(v, ast.Name) and not v.id.startswith('<') else n
+            roots[n] = r
+        for n in names:
+            r = roots[n]
+            if r != n and (sum(1 for m in names if roots[m] == r) > 1 or r in names):
+                r = n
+            st.env[n] = ast.Name(id='%s@%s' % (r, tag), ctx=ast.Load())
         for k in [k for k in st.facts if '@%s' % tag in k]:
             del st.facts[k]
 
@@ -831,8 +981,34 @@ def _const_range(it):
     return None
 
 
-def extract(func, classifier, bind=None):
-    x = Extractor(func, classifier, bind)
+def method_callee(repo, cls, module=None):
+    """callee resolution for the automaton: ``self.m(...)`` with m found on the class (or a base),
+    and a module-level function called by its bare name"""
+    module = module or cls.module
+
+    def resolve(call):
+        f = call.func
+        if isinstance(f, ast.Attribute) and isinstance(f.value, ast.Name) and f.value.id in ('self', 'cls'):
+            fi = repo.method(cls, f.attr)
+            if fi is not None and isinstance(fi.node, ast.FunctionDef):
+                decos = [unparse(d) for d in fi.node.decorator_list]
+                if not decos:
+                    return fi.node, f.value
+                if decos == ['staticmethod']:
+                    return fi.node, None
+                if decos == ['classmethod']:
+                    return fi.node, ast.Name(id='cls', ctx=ast.Load())
+            return None
+        if isinstance(f, ast.Name):
+            fi = repo.functions.get('bisturi/%s.py::%s' % (module, f.id))
+            if fi is not None and isinstance(fi.node, ast.FunctionDef) and not fi.node.decorator_list:
+                return fi.node, None
+        return None
+    return resolve
+
+
+def extract(func, classifier, bind=None, callee=None):
+    x = Extractor(func, classifier, bind, callee)
     x.todo = []
     x.nodes = {}
     return x.run()
